@@ -153,8 +153,8 @@ def c12(G, n=4):
         if sorted(got) != sorted(exp):
             fails.append(fail('C12.get_words', f'n={k}: yielded {fmt(got)[:6]} expected {fmt(exp)[:6]}' + (' (duplicates)' if len(got) != len(set(got)) else ''))); break
     if S.is_finite(G):
-        big = S.lang(G, 12)
-        if all(len(w) < 12 for w in big):
+        big = S.lang(G, 8)
+        if all(len(w) < 8 for w in big):
             ok, got = guarded('C12.get_words.unbounded', lambda: words(None), fails)
             if ok and sorted(got) != sorted(big): fails.append(fail('C12.get_words.unbounded', f'yielded {fmt(got)[:6]} expected {fmt(big)[:6]}'))
     return fails
